@@ -56,8 +56,8 @@ InitialDomain(sol, id) ==
 ObjExpectOK(sol) ==
   \A x \in {y \in ExpectsFor(sol.name) : y.kind = "obj"} :
      LET v == TopItem(sol, x.var)
-     IN /\ Chk({"C17"}, "DomainAtDeclaration", NamesOf(sol, InitialDomain(sol, v)) \ {x.var} = SeqRange(x.dom0))
-        /\ Chk({"C17"}, "ChoiceRespectsConstraints",
+     IN /\ Chk({"C17", "C14"}, "DomainAtDeclaration", NamesOf(sol, InitialDomain(sol, v)) \ {x.var} = SeqRange(x.dom0))
+        /\ Chk({"C17", "C14"}, "ChoiceRespectsConstraints",
                /\ Cardinality(Domain(sol, v)) = 1
                /\ (NamesOf(sol, Domain(sol, v)) \ {x.var}) \subseteq SeqRange(x.allowed))
 
@@ -141,7 +141,7 @@ Next ==
                \* a problem that has no solution by construction (the generator knows why) is not answered "solved"
                /\ Chk({"C01", "C02", "C03"}, "KnownUnsolvableNotSolved",
                       (\E x \in ExpectsFor(ev.name) : x.kind = "unsolvable") => ev.verdict # "solved")
-               /\ Chk({"C17"}, "SolvableIffSomeInstanceFits",
+               /\ Chk({"C17", "C14"}, "SolvableIffSomeInstanceFits",
                       \A x \in {y \in ExpectsFor(ev.name) : y.kind \in {"obj", "verdict"}} : (x.sat = 1) = (ev.verdict = "solved"))
                /\ verdicts' = verdicts + 1 /\ xs' = X0 /\ UNCHANGED <<solved, expects>>
           [] ev.e = "solution" ->
